@@ -4,15 +4,18 @@ PROPS["C15"] = {
     "technique": ("property-based testing (rapid) against an independent math/big transcription of RFC 9381 section 5 "
                   "(ECVRF-EDWARDS25519-SHA512-ELL2, plus the draft-10 challenge) built on the RFC 9380 reference; an adversarial "
                   "prover that knows the secret scalar constructs torsion-shifted proofs that verify; exhaustive lists for encodings"),
-    "level_text": ("Generated-input search: Prove/Prove_v10 and the added-randomness provers (entropy from generated readers with short "
-                   "reads and truncated streams) are compared byte-for-byte with the reference for generated keys and inputs; Verify returns "
-                   "(true, proof_to_hash) on them and false for another key, another input and the other challenge format; Verify and ProofToHash "
+    "level_text": ("Generated-input search: Prove/Prove_v10 are compared byte-for-byte with the reference for generated keys and inputs; the "
+                   "added-randomness provers (entropy from generated readers with short reads; truncated streams must give an error) must emit proofs "
+                   "that the reference verifier accepts, with Gamma = xH, varying with the entropy and with the same beta; Verify returns "
+                   "(true, proof_to_hash) on all of them and false for another key, another input and the other challenge format; Verify and ProofToHash "
                    "are compared with the reference verdict on hostile public keys (non-canonical, small-order, mixed-order, off-curve, wrong length) "
                    "and proofs (bit flips, s+kL, s at the order boundary, non-canonical/small-order/shifted Gamma, wrong length); adversarially "
                    "constructed proofs with Gamma' = xH + T and/or key Y + T that satisfy the verification equations must verify and give the one "
                    "beta, and the same construction under small-order keys (a forgery needing no secret) must be rejected. Does not prove absence."),
     "level_note": ("Trusted: math/big, crypto/sha512, the reference (replays RFC 9381 B.3 / draft-10 vectors and, through h2c, the RFC 9380 vectors). "
                    "Private keys are seed || reference public key; private keys whose two halves disagree are outside the documented domain and not generated. "
+                   "The thorough tier adds a 60 s native-fuzz campaign over (pk, pi, alpha, format) whose executions are not counted in the evidence numbers. "
+                   "The exact way added entropy enters the nonce is undocumented and therefore only recorded as a class. "
                    "'Verification fails' for random neighbours is asserted modulo the reference agreeing (2^-128 accidents excluded by construction)."),
     "rule": ("rapid-generated (seed, alpha, entropy stream, format) and (public-key class, proof class) tuples, and adversarial (key torsion, Gamma torsion, "
              "nonce) tuples, each compared with the RFC 9381 reference; non-trivial = adversarial or rejected class, or added randomness, or the draft-10 "
@@ -22,12 +25,17 @@ PROPS["C15"] = {
         {
             "pkg": "primitives/ed25519/extra/ecvrf", "configs": ALL4,
             "tests": {
-                "TestC15ProveVerify": T(1200, 50000),
-                "TestC15VerifyRejects": T(1500, 60000),
-                "TestC15Uniqueness": T(500, 20000),
+                "TestC15ProveVerify": T(800, 30000, shards={"quick": 4, "thorough": 16}),
+                "TestC15VerifyRejects": T(1200, 40000, shards={"quick": 4, "thorough": 16}),
+                "TestC15Uniqueness": T(320, 12000, shards={"quick": 4, "thorough": 16}),
                 "TestC15RFCInputs": LIST(),
                 "TestC15EncodingList": LIST(),
                 "TestC15TorsionList": LIST(),
+                # thorough only: Go native fuzzing (mutation from honest / adversarial / hostile seeds, reference inside the
+                # target); hitting the time budget is a pass, its executions are not counted in the evidence numbers
+                "FuzzC15Verify": LIST(quick=None, configs=["default"], timeout=900,
+                                      args=["-test.fuzz=^FuzzC15Verify$", "-test.fuzztime=60s", "-test.parallel=8",
+                                            "-test.fuzzcachedir=fuzzcache-c15"]),
             },
         },
     ],
